@@ -159,11 +159,12 @@ def check_particle_s2(run, pkg):
             return r_
         want = (2 * sp.pi * rs * rho) if ndim == 2 else (4 * sp.pi * rs ** 2 * rho)
         check_algebra(run, "R-ALG", it, f"{tag}:shell-norm", f"shell norm = {'2 pi r rho' if ndim == 2 else '4 pi r^2 rho'}", norms, want, atn, loc, positive=True)
-        if not (acc[0] == "bin" and acc[1] == "+" and acc[2][0] == "mu" and acc[2][3] in (C(0), C(0.0))):
+        sa = split_acc(acc)
+        if sa is None or sa[0][3] not in (C(0), C(0.0)):
             run.ob("R-ALG", fq, f"{tag}:smearing", None, "g_i accumulates Gaussians from 0", show(acc)[:80], loc=loc)
             continue
-        term = acc[3]
-        Lj = it.loops[acc[2][1]]
+        term = sa[1]
+        Lj = it.loops[sa[0][1]]
         okt = term[0] == "call" and term[1] == "PyMatterSim.utils.funcs.grid_gaussian" and len(term[2]) == 2
         if not okt:
             run.ob("R-ALG", fq, f"{tag}:smearing", None, "each neighbour contributes a Gaussian", show(term)[:80], loc=loc)
@@ -171,7 +172,7 @@ def check_particle_s2(run, pkg):
         jr = Lj.target
         D = Lj.iter[2][0] if Lj.iter[0] == "call" and Lj.iter[1] == "builtins.enumerate" else None
         arg0, sig = term[2]
-        okarg = D is not None and arg0 == ("bin", "-", bins, ("elem", jr, 1))
+        okarg = eqv(arg0, ("bin", "-", bins, ("elem", jr, 1))) if D is not None else None
         run.ob("R-ALG", fq, f"{tag}:smearing", okarg, "neighbour at distance r_ij adds gaussian(r - r_ij, sigma_ij) on the bin centres", show(arg0)[:70], witness=None if okarg else "Gaussian not centred at the pair distance", loc=loc)
         if D is None:
             continue
@@ -426,10 +427,11 @@ def check_gyration(run, pkg):
             m, n_ = (x[1] for x in e.data["target"][2][1])
             v = e.data["value"]
             # (mu + P[i, m] * P[i, n]) / N
-            ok1 = v[0] == "bin" and v[1] == "/" and v[3] == N and v[2][0] == "bin" and v[2][1] == "+" and v[2][2][0] == "mu" and v[2][2][3] in (C(0), C(0.0))
+            sa = split_acc(v[2]) if (v[0] == "bin" and v[1] == "/" and v[3] == N) else None
+            ok1 = sa is not None and sa[0][3] in (C(0), C(0.0))
             if ok1:
-                t = v[2][3]
-                L = it.loops[v[2][2][1]]
+                t = sa[1]
+                L = it.loops[sa[0][1]]
                 iv = L.target
                 ok1 = L.iter == ("call", "builtins.range", (N,), ()) and t[0] == "bin" and t[1] == "*" and t[2][0] == "sub" and t[3][0] == "sub" and t[2][1] == t[3][1]
                 if ok1:
@@ -442,9 +444,11 @@ def check_gyration(run, pkg):
         okcov = set(ent) == want
         run.ob("R-LOOPDOM", fq, f"{tag}:entries", okcov, f"all {ndim * ndim} entries of the tensor are assigned (upper triangle + mirror)", str(sorted(ent)), witness=None if okcov else f"entries {sorted(want - set(ent))} stay 0", loc=fi.loc())
         run.ob("R-ALG", fq, f"{tag}:moment", okv and bool(ent), "S_mn = (1/N) sum_i p_im p_in over all particles, mirrored", "", witness=None if okv else "second moment wrong", loc=fi.loc())
-        okc = Pc is not None and Pc[0] == "bin" and Pc[1] == "-" and Pc[2] == P0 and row_bcast(Pc[3]) in (("call", ".mean", (P0,), (("axis", C(0)),)), ("call", "numpy.mean", (P0,), (("axis", C(0)),)))
+        okc = (Pc[0] == "bin" and Pc[1] == "-" and Pc[2] == P0 and row_bcast(Pc[3]) in (("call", ".mean", (P0,), (("axis", C(0)),)), ("call", "numpy.mean", (P0,), (("axis", C(0)),)))) if Pc is not None else None
+        if Pc == P0:
+            okc = False     # moments of the raw coordinates: definitely not centred
         run.ob("R-ALG", fq, f"{tag}:centred", okc, "coordinates are centred on their mean (centre of mass) before the moments are taken, out of place", show(Pc)[:80] if Pc else "?",
-               witness=None if okc else "tensor is not translation invariant", loc=fi.loc())
+               witness="tensor is not translation invariant: shifting the cloud changes every descriptor", loc=fi.loc(), sound=(Pc == P0))
         ret = it.returns[0].data["value"] if len(it.returns) == 1 else None
         if ret is None or ret[0] != "list":
             run.ob("R-ALG", fq, f"{tag}:descriptors", None, "descriptor list returned", show(ret)[:60] if ret else f"{len(it.returns)} returns", loc=fi.loc())
